@@ -12,7 +12,8 @@ if [ "$1" = "-e" ]; then
   if cmp -s "$d/src/scippneutron/$3" "/repo/src/scippneutron/$3"; then echo "MUTATION DID NOT APPLY"; exit 3; fi
   shift 3
 else
-  (cd "$d" && patch -p1 -s < "$1") || { echo "PATCH FAILED"; exit 3; }
+  pf="$(cd "$(dirname "$1")" && pwd)/$(basename "$1")"
+  (cd "$d" && patch -p1 -s < "$pf") || { echo "PATCH FAILED"; exit 3; }
   shift 1
 fi
 [ "$1" = "--" ] && shift
